@@ -274,10 +274,14 @@ Disjoint(p) == \A i, j \in 1..Len(p) : i < j =>
                   /\ AllLines(p[i]) /\ AllLines(p[j])
                   /\ LET v == PolyVerts(p[i]) w == PolyVerts(p[j]) IN
                      \A a \in 1..Len(v), b \in 1..Len(w) : ~SegsMeet(v[a], Nxt(v, a), w[b], Nxt(w, b))
-\* contour ci enters the interior of contour cj (polygons; coordinates even, so edge midpoints are lattice points)
+\* contour ci enters the interior of contour cj (polygons; all coordinates are even, so the midpoints used are lattice
+\* points).  An edge e of ci meets the boundary of cj in proper crossings, at its own end points, at vertices of cj lying
+\* on e, or along collinear overlaps; between two consecutive such contact points e is entirely inside or entirely outside
+\* cj, so it is enough to test the end points, the contact vertices and the midpoints of every pair of them.
 Intrudes(ci, cj) == LET v == PolyVerts(ci) w == PolyVerts(cj) o == Orient(cj) IN
     \/ \E a \in 1..Len(v), b \in 1..Len(w) : SegsCrossProperly(v[a], Nxt(v, a), w[b], Nxt(w, b))
-    \/ \E a \in 1..Len(v) : CtrWB(cj, v[a]) = <<o, 0>> \/ CtrWB(cj, Mid(v[a], Nxt(v, a))) = <<o, 0>>
+    \/ \E a \in 1..Len(v) : LET pts == {v[a], Nxt(v, a)} \cup {w[b] : b \in {k \in 1..Len(w) : OnSeg(v[a], Nxt(v, a), w[k])}}
+                             IN \E x \in pts, y \in pts : CtrWB(cj, Mid(x, y)) = <<o, 0>>
 \* FillW: per contour <<w, wt, demanded>>: w = winding number of the region just inside the contour (own orientation +
 \* windings of the other contours around its interior), demanded only if the contour is simple, no other contour enters
 \* its interior (touching is allowed) and every decided query point strictly inside it sees the same winding of the
